@@ -40,7 +40,7 @@ ASSUMPTIONS = [
 ]
 N_RUNS = {"quick": 2000, "thorough": 50000}
 ORDERS = [2, 4, 8, 16, 32, 64, 128, 256]
-FORMS = ["str", "str_sp", "list", "tuple", "arr", "arr_bool", "bs"]
+FORMS = ["str", "str_sp", "str_comma", "str_mixed", "list", "tuple", "arr", "arr_bool", "bs"]
 
 
 def tasks(tier, master):
@@ -106,7 +106,8 @@ def generate(seed, tier):
             M = rng.choice([m for m in Ms if m <= 64] or [4])
             ops.append({"op": "sdd", "M": M, "nsym": rng.choice([1, 2, 3, 8]), "bseed": rng.getrandbits(32),
                         "shape": rng.choice(["nrz", "rz", "gaussian"]), "amp": rng.choice([0.0, 0.0, 0.1, 0.4, 0.8, 1.5]),
-                        "nseed": rng.getrandbits(32), "form": rng.choice(["es_noise", "es", "arr", "list"]),
+                        "nseed": rng.getrandbits(32),
+                        "form": rng.choice(["es_noise", "es", "arr", "list", "arr_i8", "arr_i16", "es_i16"]),
                         "vout": rng.choice([1.0, 0.2, 5.0]), "bias": rng.choice([0.0, 0.0, 0.5, -1.0]),
                         "tie": rng.choice([None, None, None, "blank", "flat", "equal2"])})
         elif k == "gv":
@@ -148,6 +149,10 @@ def _container(bits, form, BS):
         return "".join(map(str, bits))
     if form == "str_sp":
         return " ".join(map(str, bits))
+    if form == "str_comma":
+        return ",".join(map(str, bits))
+    if form == "str_mixed":
+        return "".join(str(b) + (", " if k % 3 == 0 else " " if k % 3 == 1 else "") for k, b in enumerate(bits))
     if form == "list":
         return list(bits)
     if form == "tuple":
@@ -435,7 +440,19 @@ class Link:
             amp = 0.0
         total = sig if noise is None else sig + noise
         form = op["form"]
-        if form == "es_noise" and noise is not None:
+        if form in ("arr_i8", "arr_i16", "es_i16") and not tie:
+            # ADC codes in a narrow integer type: the slot integral must not wrap
+            dt_ = np.int8 if form == "arr_i8" else np.int16
+            full = 100 if dt_ is np.int8 else 30000
+            span = float(np.max(np.abs(total))) or 1.0
+            total = np.round(total / span * full).astype(dt_)
+            noise = None
+            amp = 1.0      # only the independent argmax is asserted for quantised records
+            arg = self.ES(total.copy()) if form == "es_i16" else total.copy()
+            form = "_int"
+        if form == "_int":
+            pass
+        elif form == "es_noise" and noise is not None:
             arg = self.ES(sig.copy(), noise.copy())
         elif form in ("es", "es_noise"):
             arg = self.ES(total.copy())
@@ -457,8 +474,9 @@ class Link:
         for a_, b_ in zip(g, now):
             if not np.array_equal(a_, b_):
                 raise Violation("C12/sdd", f"{what}: SDD modified its input", "sdd/mutate")
-        slot_sum = total.reshape(-1, sps).sum(axis=1).reshape(nsym, M)
-        slot_en = (total ** 2).reshape(-1, sps).sum(axis=1).reshape(nsym, M)
+        tot_f = np.asarray(total, dtype=float)
+        slot_sum = tot_f.reshape(-1, sps).sum(axis=1).reshape(nsym, M)
+        slot_en = (tot_f ** 2).reshape(-1, sps).sum(axis=1).reshape(nsym, M)
         checked = 0
         for s in range(nsym):
             row = got[s * M:(s + 1) * M]
